@@ -369,3 +369,26 @@ M("C11", "lat: unreachable not unlinked", PL, """            if (prev_node)
             /* Delete this node""", "TYPESTATE.L6-unreachable")
 M("C11", "lat: mark reachable from start", FS, "    mark_reachable(dag, dag->end);", "    mark_reachable(dag, dag->start);", "GUARD.L4-nodes")
 M("C11", "lat benign: reorder key compare", FS, "if ((node->sf == sf) && (node->wid == wid) && (node->node_id == node_id))", "if ((node->node_id == node_id) && (wid == node->wid) && (node->sf == sf))", kind="benign")
+
+# ---- C12 ----------------------------------------------------------------------
+M("C12", "benign: scan non-strict (ties only)", PL, "        if ((p->score + p->node->info.rem_score) < total_score)\n            break;", "        if ((p->score + p->node->info.rem_score) <= total_score)\n            break;", kind="benign")
+M("C12", "astar: scan direction flipped", PL, "        if ((p->score + p->node->info.rem_score) < total_score)\n            break;", "        if ((p->score + p->node->info.rem_score) > total_score)\n            break;", "TWIN.P1-agenda-key")
+M("C12", "astar: scan ignores heuristic", PL, "        if ((p->score + p->node->info.rem_score) < total_score)\n            break;", "        if ((p->score) < total_score)\n            break;", "TWIN.P1-agenda-key")
+M("C12", "astar: extension key parent's node", PL, "        total_score = newpath->score + newpath->node->info.rem_score;", "        total_score = newpath->score + path->node->info.rem_score;", "TWIN.P1-agenda-key")
+M("C12", "astar: insert after p", PL, "        newpath->next = p;\n        if (!prev)", "        newpath->next = p ? p->next : NULL;\n        if (!prev)", "ORDER.P2-agenda")
+M("C12", "astar: path score forgets link", PL, "        newpath->score = path->score + x->link->ascr;", "        newpath->score = path->score;", "ORDER.P2-agenda")
+M("C12", "astar: pops second", PL, "        nbest->path_list = nbest->path_list->next;\n        if (nbest->top", "        nbest->path_list = nbest->path_list->next ? nbest->path_list->next->next : NULL;\n        if (nbest->top", "ORDER.P2-agenda")
+M("C12", "bestpath: min-merge", PL, "            if (score BETTER_THAN x->link->path_scr) {\n                x->link->path_scr = score;", "            if (score WORSE_THAN x->link->path_scr) {\n                x->link->path_scr = score;", "ORDER.P3-best-of")
+M("C12", "bestpath: best_prev not updated", PL, "                x->link->path_scr = score;\n                x->link->best_prev = link;", "                x->link->path_scr = score;", "ORDER.P3-best-of")
+M("C12", "rem_score: min over exits", PL, "        if (score BETTER_THAN bestscore)\n            bestscore = score;", "        if (score WORSE_THAN bestscore)\n            bestscore = score;", "ORDER.P3-best-of")
+M("C12", "rem_score: forgets link score", PL, "        score = best_rem_score(nbest, x->link->to);\n        score += x->link->ascr;", "        score = best_rem_score(nbest, x->link->to);", "ORDER.P3-best-of")
+M("C12", "traverse: expand before fanin 0", PL, "    --next->to->info.fanin;\n    if (next->to->info.fanin == 0) {", "    --next->to->info.fanin;\n    if (next->to->info.fanin <= 1) {", "TWIN.P4-traversal")
+M("C12", "reverse: uses exits", PL, "        for (x = next->from->entries; x; x = x->next)\n            lattice_pushq(dag, x->link);", "        for (x = next->from->exits; x; x = x->next)\n            lattice_pushq(dag, x->link);", "TWIN.P4-traversal")
+M("C12", "beta: unscaled ascr", PL, "                                             + (int)((x->link->ascr << SENSCR_SHIFT) * ascale));", "                                             + (int)((x->link->ascr << SENSCR_SHIFT)));", "TWIN.P5-scaling")
+M("C12", "alpha: adds own alpha twice", PL, "x->link->alpha = logmath_add(lmath, x->link->alpha, link->alpha + bprob);", "x->link->alpha = logmath_add(lmath, link->alpha, link->alpha + bprob);", "TWIN.P5-scaling")
+M("C12", "astar_hyp: count forgets separator", PL, """            char *wstr = dict_wordstr(search_module_dict(search), p->node->basewid);
+            if (wstr != NULL)
+                len += strlen(wstr) + 1;""", """            char *wstr = dict_wordstr(search_module_dict(search), p->node->basewid);
+            if (wstr != NULL)
+                len += strlen(wstr);""", "TWIN.P6-hyp-passes")
+M("C12", "benign: key operands swapped", PL, "        total_score = newpath->score + newpath->node->info.rem_score;", "        total_score = newpath->node->info.rem_score + newpath->score;", kind="benign")
